@@ -110,6 +110,13 @@ func deq(path string, a, b reflect.Value, depth int) string {
 		if json.Compact(&cx, x) == nil && json.Compact(&cy, y) == nil {
 			x, y = cx.Bytes(), cy.Bytes()
 		}
+		// an absent value and an explicit null are the same JSON document part
+		if len(x) == 0 {
+			x = []byte("null")
+		}
+		if len(y) == 0 {
+			y = []byte("null")
+		}
 		if !bytes.Equal(x, y) {
 			return fmt.Sprintf("%s: raw JSON %q vs %q", path, trunc(string(x)), trunc(string(y)))
 		}
